@@ -405,8 +405,10 @@ impl Prop for C09 {
       "inverse" => {
         if shard == 0 {
           // boundary instants: the first 40 days (before/after Lichun) of the first and a few other years, range starting in that year
-          for y in [1i64, 2, 60, 61, 1582, 1583, 9998] {
-            for dd in (0..40).step_by(3) {
+          // (all of the first 70 years: the search aligns its first candidate year with the 60-year cycle near its start)
+          for y in (1i64..=70).chain([1582, 1583, 9998]) {
+            for dd in (0..40).step_by(if y <= 3 || y >= 60 { 3 } else { 13 }).chain([150usize]) {
+              let dd = dd as i64;
               for h in [1i64, 12, 23] {
                 let ix = c.year_start[y as usize] as i64 + dd;
                 run_case(env, out, "inverse", &Case::ints(&[ix, h * 3600 + 1800, 0, 0]), &ev);
